@@ -35,6 +35,6 @@ for l in open(V + '/properties.jsonl'):
     t = open(f'{V}/tools/seedprompts/{pid}.txt').read().replace(f'/tmp/seed/{pid}', wt)
     extra = ("\n\nALREADY TAKEN (other engineers delivered these ideas before; yours must differ from them in code site AND mechanism — do not re-use them or close variants):\n"
              + "\n".join(f"  - {x}" for x in taken.get(pid, []))
-             + "\nAlso avoid trivial variants of reverting a recent 'fix:' commit of this checkout (see `git log --oneline | head -45`); look for NEW ways to break the property, preferably in code paths and scenarios that the quantifier mentions but that are rarely exercised (other carriers, other states, other timings, other field kinds, limits, error paths), and in source files named by the code anchors that none of the taken ideas touches. Never use `git stash`.\n")
+             + "\nAlso avoid trivial variants of reverting a recent 'fix:' commit of this checkout (see `git log --oneline | head -45`); look for NEW ways to break the property, preferably in code paths and scenarios that the quantifier mentions but that are rarely exercised (other carriers, other states, other timings, other field kinds, limits, error paths), and in source files named by the code anchors that none of the taken ideas touches. Never use `git stash`.\n" + (os.environ.get('SEED_EXTRA', '') and ('\n' + os.environ['SEED_EXTRA'] + '\n')))
     open(wt + '/TASK.md', 'w').write(t + extra)
     print(wt)
